@@ -1,2 +1,227 @@
--- line-protocol model driver for C12 (stub)
-def main : IO Unit := IO.println "stub C12"
+/- Line-protocol model driver for C12 (PEG).
+
+  op   <entry> <hasBackref 0/1> <leak 0/1> <bytecode words ','> <consts: K,VAL*> <text hex|-> <start> <args: K,VAL*> [<subst VAL>]
+  den  ... same fields: the denotational semantics on the same bytecode
+  spec <entry> <source grammar tokens ','> <text hex|-> <start> <args> [<subst VAL>]
+  entry = match | find | findall | replace | replaceall
+  answers:  M- | M[v,..] | F- | F<i> | A[i,..] | R<hex> | E:<kind>...
+-/
+import Driver.Util
+import JanetModel.Peg.Entry
+open Driver JanetModel.Peg JanetModel.Peg.Spec
+
+def hexOrEmpty (h : String) : Option (List Nat) := if h == "-" then some [] else bytesOfHex h
+
+partial def showVal : Val → String
+  | .nil => "n"
+  | .bool true => "t"
+  | .bool false => "f"
+  | .int n => s!"i{n}"
+  | .str b => "s" ++ hexOfBytes b
+  | .kw b => "k" ++ hexOfBytes b
+  | .arr xs => "a[" ++ ",".intercalate (xs.map showVal) ++ "]"
+  | .s64 n => s!"l{n}"
+  | .u64 n => s!"u{n}"
+  | .struct _ => "S"
+  | .fn name => "F" ++ name
+
+def showErr : Err → String
+  | .fuel => "E:fuel"
+  | .depth => "E:depth"
+  | .badop => "E:badop"
+  | .oob => "E:oob"
+  | .user v => "E:user:" ++ showVal v
+  | .matchErr l c => s!"E:match:{l}:{c}"
+  | .call => "E:call"
+
+
+def pNat : List String → Option (Nat × List String)
+  | t :: ts => t.toNat?.map (·, ts)
+  | [] => none
+
+def pInt : List String → Option (Int × List String)
+  | t :: ts => t.toInt?.map (·, ts)
+  | [] => none
+
+def pHex : List String → Option (List Nat × List String)
+  | t :: ts => (hexOrEmpty t).map (·, ts)
+  | [] => none
+
+def pKey : List String → Option (Key × List String)
+  | "s" :: ts => do let (b, r) ← pHex ts; pure (.str b, r)
+  | "i" :: ts => do let (n, r) ← pInt ts; pure (.int n, r)
+  | _ => none
+
+partial def pVal : List String → Option (Val × List String)
+  | "n" :: ts => some (.nil, ts)
+  | "t" :: ts => some (.bool true, ts)
+  | "f" :: ts => some (.bool false, ts)
+  | "i" :: ts => do let (n, r) ← pInt ts; pure (.int n, r)
+  | "s" :: ts => do let (b, r) ← pHex ts; pure (.str b, r)
+  | "k" :: ts => do let (b, r) ← pHex ts; pure (.kw b, r)
+  | "F" :: name :: ts => some (.fn name, ts)
+  | "S" :: ts => do
+    let (k, r) ← pNat ts
+    let rec go (k : Nat) (r : List String) (acc : List (Key × Val)) : Option (List (Key × Val) × List String) :=
+      if k == 0 then some (acc.reverse, r) else do
+        let (key, r1) ← pKey r
+        let (v, r2) ← pVal r1
+        go (k - 1) r2 ((key, v) :: acc)
+    let (kvs, r') ← go k r []
+    pure (.struct kvs, r')
+  | _ => none
+
+partial def pVals (k : Nat) (ts : List String) (acc : List Val) : Option (List Val × List String) :=
+  if k == 0 then some (acc.reverse, ts) else do
+    let (v, r) ← pVal ts
+    pVals (k - 1) r (v :: acc)
+
+def pValList (field : String) : Option (List Val) := do
+  let ts := field.splitOn ","
+  let (k, r) ← pNat ts
+  let (vs, _) ← pVals k r []
+  pure vs
+
+mutual
+partial def pPatt : List String → Option (Patt × List String)
+  | "str" :: ts => do let (b, r) ← pHex ts; pure (.str b, r)
+  | "int" :: ts => do let (n, r) ← pInt ts; pure (.int n, r)
+  | "bool" :: ts => do let (n, r) ← pNat ts; pure (.bool (n != 0), r)
+  | "ref" :: name :: ts => some (.ref name, ts)
+  | "range" :: ts => do
+    let (k, r) ← pNat ts
+    let rec go (k : Nat) (r : List String) (acc : List (Nat × Nat)) : Option (List (Nat × Nat) × List String) :=
+      if k == 0 then some (acc.reverse, r) else do
+        let (lo, r1) ← pNat r
+        let (hi, r2) ← pNat r1
+        go (k - 1) r2 ((lo, hi) :: acc)
+    let (rs, r') ← go k r []
+    pure (.range rs, r')
+  | "set" :: ts => do let (b, r) ← pHex ts; pure (.set b, r)
+  | "look" :: ts => do let (o, r) ← pInt ts; let (p, r) ← pPatt r; pure (.look o p, r)
+  | "choice" :: ts => do let (k, r) ← pNat ts; let (ps, r) ← pPatts k r []; pure (.choice ps, r)
+  | "seq" :: ts => do let (k, r) ← pNat ts; let (ps, r) ← pPatts k r []; pure (.seq ps, r)
+  | "if" :: ts => do let (a, r) ← pPatt ts; let (b, r) ← pPatt r; pure (.if_ a b, r)
+  | "ifnot" :: ts => do let (a, r) ← pPatt ts; let (b, r) ← pPatt r; pure (.ifnot a b, r)
+  | "not" :: ts => do let (a, r) ← pPatt ts; pure (.not a, r)
+  | "any" :: ts => do let (a, r) ← pPatt ts; pure (.any a, r)
+  | "some" :: ts => do let (a, r) ← pPatt ts; pure (.some a, r)
+  | "opt" :: ts => do let (a, r) ← pPatt ts; pure (.opt a, r)
+  | "between" :: ts => do let (lo, r) ← pNat ts; let (hi, r) ← pNat r; let (a, r) ← pPatt r; pure (.between lo hi a, r)
+  | "atleast" :: ts => do let (n, r) ← pNat ts; let (a, r) ← pPatt r; pure (.atleast n a, r)
+  | "atmost" :: ts => do let (n, r) ← pNat ts; let (a, r) ← pPatt r; pure (.atmost n a, r)
+  | "repeat" :: ts => do let (n, r) ← pNat ts; let (a, r) ← pPatt r; pure (.repeat_ n a, r)
+  | "to" :: ts => do let (a, r) ← pPatt ts; pure (.to a, r)
+  | "thru" :: ts => do let (a, r) ← pPatt ts; pure (.thru a, r)
+  | "capture" :: ts => do let (t, r) ← pNat ts; let (a, r) ← pPatt r; pure (.capture a t, r)
+  | "accumulate" :: ts => do let (t, r) ← pNat ts; let (a, r) ← pPatt r; pure (.accumulate a t, r)
+  | "group" :: ts => do let (t, r) ← pNat ts; let (a, r) ← pPatt r; pure (.group a t, r)
+  | "drop" :: ts => do let (a, r) ← pPatt ts; pure (.drop a, r)
+  | "onlytags" :: ts => do let (a, r) ← pPatt ts; pure (.onlytags a, r)
+  | "replace" :: ts => do let (t, r) ← pNat ts; let (v, r) ← pVal r; let (a, r) ← pPatt r; pure (.replace a v t, r)
+  | "cmt" :: ts => do let (t, r) ← pNat ts; let (v, r) ← pVal r; let (a, r) ← pPatt r; pure (.cmt a v t, r)
+  | "constant" :: ts => do let (t, r) ← pNat ts; let (v, r) ← pVal r; pure (.constant v t, r)
+  | "argument" :: ts => do let (n, r) ← pNat ts; let (t, r) ← pNat r; pure (.argument n t, r)
+  | "position" :: ts => do let (t, r) ← pNat ts; pure (.position t, r)
+  | "line" :: ts => do let (t, r) ← pNat ts; pure (.line t, r)
+  | "column" :: ts => do let (t, r) ← pNat ts; pure (.column t, r)
+  | "backref" :: ts => do let (s, r) ← pNat ts; let (t, r) ← pNat r; pure (.backref s t, r)
+  | "backmatch" :: ts => do let (t, r) ← pNat ts; pure (.backmatch t, r)
+  | "unref" :: ts => do let (t, r) ← pNat ts; let (a, r) ← pPatt r; pure (.unref a t, r)
+  | "nth" :: ts => do let (n, r) ← pNat ts; let (t, r) ← pNat r; let (a, r) ← pPatt r; pure (.nth n a t, r)
+  | "error0" :: ts => some (.error none, ts)
+  | "error" :: ts => do let (a, r) ← pPatt ts; pure (.error (some a), r)
+  | "lenprefix" :: ts => do let (a, r) ← pPatt ts; let (b, r) ← pPatt r; pure (.lenprefix a b, r)
+  | "sub" :: ts => do let (a, r) ← pPatt ts; let (b, r) ← pPatt r; pure (.sub a b, r)
+  | "split" :: ts => do let (a, r) ← pPatt ts; let (b, r) ← pPatt r; pure (.split a b, r)
+  | "til" :: ts => do let (a, r) ← pPatt ts; let (b, r) ← pPatt r; pure (.til a b, r)
+  | "readint" :: ts => do
+    let (w, r) ← pNat ts; let (sg, r) ← pNat r; let (be, r) ← pNat r; let (t, r) ← pNat r
+    pure (.readint w (sg != 0) (be != 0) t, r)
+  | "number" :: ts => do let (b, r) ← pNat ts; let (t, r) ← pNat r; let (a, r) ← pPatt r; pure (.number a b t, r)
+  | "grammar" :: ts => do
+    let (k, r) ← pNat ts
+    let (rules, r) ← pRules k r []
+    pure (.grammar rules, r)
+  | _ => none
+partial def pPatts (k : Nat) (ts : List String) (acc : List Patt) : Option (List Patt × List String) :=
+  if k == 0 then some (acc.reverse, ts) else do
+    let (p, r) ← pPatt ts
+    pPatts (k - 1) r (p :: acc)
+partial def pRules (k : Nat) (ts : List String) (acc : List (String × Patt)) : Option (List (String × Patt) × List String) :=
+  if k == 0 then some (acc.reverse, ts) else
+    match ts with
+    | name :: r => do
+      let (p, r) ← pPatt r
+      pRules (k - 1) r ((name, p) :: acc)
+    | [] => none
+end
+
+def showMatch : Except Err (Option (List Val)) → String
+  | .error e => showErr e
+  | .ok none => "M-"
+  | .ok (some caps) => "M[" ++ ",".intercalate (caps.map showVal) ++ "]"
+
+def runEntry (entry : String) (m : Matcher) (text : List Nat) (start : Nat) (subst : Option Val) : String :=
+  match entry with
+  | "match" => showMatch (pegMatch m start)
+  | "find" =>
+    match pegFind m text.length start with
+    | .error e => showErr e
+    | .ok none => "F-"
+    | .ok (some i) => s!"F{i}"
+  | "findall" =>
+    match pegFindAll m text.length start with
+    | .error e => showErr e
+    | .ok is => "A[" ++ ",".intercalate (is.map toString) ++ "]"
+  | "replace" | "replaceall" =>
+    match subst with
+    | none => "bad-op"
+    | some sv =>
+      match pegReplace m text sv (entry == "replace") start with
+      | .error e => showErr e
+      | .ok out => "R" ++ hexOfBytes out
+  | _ => "bad-op"
+
+def fuelC : Nat := 4000
+
+def parseSubst (rest : List String) : Option (Option Val) :=
+  match rest with
+  | [] => some none
+  | [f] => (pVal (f.splitOn ",")).map (fun vr => some vr.1)
+  | _ => none
+
+def step (_ : Unit) (toks : List String) : Unit × String :=
+  match toks with
+  | kind :: entry :: hb :: leak :: bc :: consts :: text :: start :: args :: rest =>
+    if kind == "op" ∨ kind == "den" then
+      let r : Option String := do
+        let words ← (bc.splitOn ",").mapM String.toNat?
+        let cs ← pValList consts
+        let tx ← hexOrEmpty text
+        let st ← start.toNat?
+        let ar ← pValList args
+        let sb ← parseSubst rest
+        let leak ← leak.toNat?
+        let P : Program := { bytecode := words.toArray, constants := cs.toArray }
+        let E : Env := { text := tx, args := ar, hasBackref := hb == "1", lenprefixLeak := leak % 2 == 1, numRaw := leak / 2 % 2 == 1 }
+        let m : Matcher :=
+          if kind == "op" then opMatcher E (decode P) 0 fuelC JanetModel.Gen.Peg.recursionGuard
+          else denMatcher E (decode P) 0 fuelC JanetModel.Gen.Peg.recursionGuard
+        pure (runEntry entry m tx st sb)
+      ((), r.getD "bad-op")
+    else ((), "bad-op")
+  | "spec" :: entry :: g :: text :: start :: args :: rest =>
+    let r : Option String := do
+      let (p, _) ← pPatt (g.splitOn ",")
+      let tx ← hexOrEmpty text
+      let st ← start.toNat?
+      let ar ← pValList args
+      let sb ← parseSubst rest
+      let E : Env := { text := tx, args := ar, hasBackref := true, lenprefixLeak := false }
+      let m : Matcher := denMatcher E Spec.fetch ⟨[], p⟩ fuelC JanetModel.Gen.Peg.recursionGuard
+      pure (runEntry entry m tx st sb)
+    ((), r.getD "bad-op")
+  | _ => ((), "bad-op")
+
+def main : IO Unit := runLoop () step
